@@ -108,6 +108,10 @@ func Run(args []string) *rep.Report {
 		}
 		bc := *cfg
 		bc.HTTP = *httpEvery > 0 && idx%*httpEvery == 0
+		NoTimeMode = 0
+		if idx%5 == 2 {
+			NoTimeMode = 1 + (idx/5)%2 // a fifth of the behaviours: the oldest version of every record carries no (usable) advertisement time
+		}
 		d := replayOne(bc, &b)
 		if d.HTTP() {
 			httpRuns++
